@@ -11,7 +11,7 @@ ID = "C18"
 LEVEL = "exploration"
 RULE = (
     "(a) chains of d = 1..12 (thorough ..60) awaiting tasks with generated, individually named bodies (any subset of levels defined without retrievable source, as code typed into a REPL or built with exec); the deepest "
-    "level raises directly or in a plain helper; any subset of levels first awaits a batch item and any subset "
+    "level raises directly, in a plain helper, or awaits a batch item whose flush raises in a backend function / a lazily computed future whose provider raises; any subset of levels first awaits a batch item and any subset "
     "catches and re-raises; run via fn() and fn.asynq().value() on both builds: the user frames of the escaping "
     "exception's traceback must be exactly lvl0..lvl(d-1) once each, in order, ending at the raising frame, and "
     "format_asynq_stack() called inside the deepest task must list lvl0..lvl(d-1) outermost first (also for one function awaiting itself 1200, 12000 and - thorough - 40000 levels deep, beyond the recursion limit of 10000 the worker runs with); the same holds for EVERY observation when the failed task is observed three times, when a task swallowed the failure before the caller observes it, and when a task caught it in a synchronous re-entry and then let it propagate. "
@@ -109,8 +109,23 @@ def make_chain(d, cfg, rt, stack_out):
     from .. import harness
 
     ns = {"A": A, "cfg": cfg, "harness": harness, "rt": rt, "UserErr": UserErr, "ctr": itertools.count(), "stack_out": stack_out, "adebug": adebug}
+    from asynq import BatchBase, BatchItemBase
+    from asynq.futures import Future
+
+    ns["Future"] = Future
+
+    class BoomBatch(BatchBase):
+        def _try_switch_active_batch(self):
+            pass
+
+        def _flush(self):
+            ns["flush_raiser"]()
+
+    ns["boom_item"] = lambda: BatchItemBase(BoomBatch())
     pieces = [
         (None, "def raiser():\n    raise UserErr('boom')\n"),
+        (None, "def flush_raiser():\n    raise UserErr('boom')\n"),
+        (None, "def prov_raiser():\n    raise UserErr('boom')\n"),
         (None, "@A()\ndef wrap_swallow(t):\n    try:\n        yield t\n    except UserErr:\n        pass\n    return 'swallowed'\n"),
         (None, "@A()\ndef wrap_retry(t):\n    try:\n        t.value()\n    except UserErr:\n        pass\n    yield None\n    t.value()\n"),
     ]
@@ -125,6 +140,12 @@ def lvl%(i)d():
         yield harness.HItem(rt, 0, "k%%d" %% next(ctr), ("x", next(ctr)))
     if %(i)d == %(last)d:
         stack_out.append(adebug.format_asynq_stack())
+        if cfg.get("raise_at") == "flush":
+            # the error is raised by the backend call of a batch flush this task waits for
+            yield boom_item()
+        if cfg.get("raise_at") == "provider":
+            # ... or by the value provider of a lazily computed future
+            yield Future(prov_raiser)
         if cfg["helper"]:
             raiser()
         raise UserErr("boom")
@@ -233,6 +254,7 @@ def run_chain_unit(unit, res, c, progress):
         while len(variants) < unit["variants"]:
             variants.append(([rnd.random() < 0.5 for _ in range(d)], [rnd.random() < 0.4 for _ in range(d)], rnd.random() < 0.5, [rnd.random() < 0.3 for _ in range(d)]))
         for vi, (catch, item, helper, nosource) in enumerate(variants):
+            raise_at = ["body", "flush", "provider"][vi % 3] if vi >= 4 else "body"
             for how in ("call", "value", "value_again", "swallowed_then_observed", "caught_in_sync_reentry_then_propagated"):
                 asynq.scheduler.reset()
                 prelude_viol = None
@@ -270,7 +292,9 @@ def run_chain_unit(unit, res, c, progress):
                         prelude_viol = ("format_asynq_stack-outside-any-task-is-not-None", {"returned": repr(outside)[:200]})
                 rt = harness.HarnessRT({"nodes": [], "kinds": 1})
                 stack_out = []
-                ns = make_chain(d, {"catch": catch, "item": item, "helper": helper, "nosource": nosource}, rt, stack_out)
+                ns = make_chain(d, {"catch": catch, "item": item, "helper": helper, "nosource": nosource, "raise_at": raise_at}, rt, stack_out)
+                if raise_at != "body":
+                    c["chains_failing_in_a_" + raise_at] = c.get("chains_failing_in_a_" + raise_at, 0) + 1
                 if any(nosource) and not all(nosource):
                     c["chains_with_some_levels_without_source"] = c.get("chains_with_some_levels_without_source", 0) + 1
                 err = None
@@ -331,7 +355,7 @@ def run_chain_unit(unit, res, c, progress):
                     user = [n for n in names if n.startswith("lvl") or n.startswith("wrap_")]
                     if user != prefix + want:
                         viol.append(("traceback-frames", {"expected": prefix + want, "observed": user, "observation": len(repeats) + 1}))
-                    last = "raiser" if helper else "lvl%d" % (d - 1)
+                    last = {"flush": "flush_raiser", "provider": "prov_raiser"}.get(raise_at) or ("raiser" if helper else "lvl%d" % (d - 1))
                     if not names or names[-1] != last:
                         viol.append(("traceback-does-not-end-at-raising-frame", {"expected_last": last, "observed_tail": names[-3:]}))
                 if len(stack_out) != 1 or stack_out[0] is None:
@@ -354,7 +378,7 @@ def run_chain_unit(unit, res, c, progress):
                             {
                                 "oracle": v[0],
                                 "mechanism": v[0],
-                                "detail": {"depth": d, "catch_and_reraise": catch, "await_item": item, "raise_in_helper": helper, "levels_without_source": nosource, "how": how, "violation": v[1]},
+                                "detail": {"depth": d, "raised_in": raise_at, "catch_and_reraise": catch, "await_item": item, "raise_in_helper": helper, "levels_without_source": nosource, "how": how, "violation": v[1]},
                                 "case": dict(unit, depths=[d]),
                             }
                         )
